@@ -59,3 +59,6 @@ Definition instance_spec (c : config) (n : node) : Prop :=
                                 In k (p_exps P) /\ In k (p_recv Q) /\ supported c k se sr = true
   | Cap _ | Fan _ => False
   end.
+
+(* every component the configuration calls for can be created by its factory *)
+Definition factories_serve (c : config) : Prop := forall n, instance_spec c n -> cannot_create c n = false.
